@@ -62,7 +62,7 @@ func init() {
 		"non-trivial iff the input has >= 8 bytes and both accepted, or >= 4 bytes and both rejected; distinct by (schema set, item, format, source, value seed, edits)",
 		[]string{"the interpreter is driven as cmd/tl2client and the repository's goldmaster stress test drive it (natArgs nil for top-level items, TL2 optimizeEmpty=false)"},
 		[]floor{{"both-rejected", 0.10, ""}, {"source-interpreter", 0.10, ""}},
-		gOpts{},
+		gOpts{QSets: []string{"cases", "goldmaster", "sink"}, TSets: []string{"cases", "goldmaster", "sink", "schema"}}, // not casestl2: known findings F40, F12
 	)
 }
 
